@@ -17,10 +17,18 @@ def pipeline(src, **kw):
     from problog.formula import LogicFormula, LogicDAG
     from problog.cnf_formula import CNF
 
-    lf = LogicFormula.create_from(PrologString(src), **kw)
+    try:
+        lf = LogicFormula.create_from(PrologString(src), **kw)
+    except Exception as exc:  # noqa
+        # an exception while GROUNDING is not this property's business (C01/C02/C27 own it)
+        raise GroundingFailed(exc)
     dag = LogicDAG.create_from(lf)
     cnf = CNF.create_from(dag)
     return lf, dag, cnf
+
+
+class GroundingFailed(Exception):
+    pass
 
 
 def names_of(f):
@@ -120,6 +128,8 @@ def run_case(prog, tier, kw=None):
         return None, "timeout", {}
     except RecursionError:
         return None, "recursion", {}
+    except GroundingFailed as exc:
+        return None, "grounding-error:" + type(exc.args[0]).__name__, {}
     except Exception as exc:  # noqa
         c = classify_exception(exc)
         if c[0] == "error":
